@@ -1,11 +1,175 @@
-import FunModel.Queue
+import FunProofs.QueueIter
 
-/-! C20 — placeholder until FunProofs/Queue.lean lands -/
+/-! # C20 (safety half) — the non-destructive iterator of `pubsub.Queue`
+
+Model: `next k` in `FunModel/Queue.lean` is one call of the producer of iterator `k`; entries carry
+identities (`1, 2, …` in creation order; `0` is the sentinel), `vals` records every entry ever created,
+`links` the `link` pointers (kept after removal), `cursors k` the entry iterator `k` yielded last.
+Quantification as in C05: every initial queue (`InitQ`), every list of programs, every run (`Reach'`,
+with its event log), no bounds; the iterator may be used by any number of threads (a single thread is
+the special case the property statement talks about: the order of the log is then the order of its calls).
+
+Reading the log (definitions in `FunProofs/QueueIter.lean`):
+* `nextVals k log` — the strings returned by the successive `next k` calls, other than "eof"/"ctx";
+* `yields k log` — the (entry identity, item) pairs iterator `k` yielded (`nextVals_eq`: the returned strings
+  are exactly the decimal renderings of these items — in particular no value is the `getD 0` default of the
+  totalised `valOf`);
+* `added log` — the items of all successful `Add`/`BlockingAdd`, in the order they took effect;
+* `returnsItem ev` — `ev` is a `Remove`/`Wait`/`Receive` segment returning an item (a removal).
+
+The liveness half (the iterator does not stay blocked while an unseen item is present, returns on
+Close/cancel) is C20Live / C07. -/
 namespace FunModel.C20
 open FunModel.Conc FunModel.Queue
 
-/-- closing never loses queued items -/
-theorem close_keeps_items (s : St) (t : Nat) : (start s t .close).st.q = s.q := by
-  simp [start]
+/-- `iter_complete_in_order`: in any run in which no `Remove`/`Wait`/`Receive` ever returns an item, the
+    sequence of values returned by the successive `next k` calls is a prefix of the sequence of all items
+    ever added, in add order — precisely its first `cursor k` elements: none skipped, none twice, order
+    kept; the entries yielded are those with identities `1, …, cursor k`. -/
+theorem iter_complete_in_order {q0 : St} (h0 : InitQ q0) (programs : List (List Op)) {log : List (Ev St Op)}
+    {s : Sys St Op} (hr : Reach' subject (initSys q0 programs) log s) (hnr : ∀ ev ∈ log, ¬ returnsItem ev) (k : Nat) :
+    nextVals k log = ((added log).take (s.subj.cursor k)).map toString ∧
+    nextVals k log <+: (added log).map toString ∧
+    (yields k log).map (·.1) = List.range' 1 (s.subj.cursor k) := by
+  obtain ⟨hI, hN⟩ := NRInv.run h0 hr hnr
+  have hv := nextVals_eq k hI.evs
+  have hy := hN.ys k
+  have e1 : nextVals k log = ((added log).take (s.subj.cursor k)).map toString := by
+    rw [hv, hy, hI.addedEq, ← List.map_take, List.map_map]; rfl
+  refine ⟨e1, ?_, ?_⟩
+  · rw [e1]; exact List.IsPrefix.map _ (List.take_prefix _ _)
+  · rw [hy, List.map_take, hN.ids]
+    exact List.take_range'_of_length_ge (by have := NRInv.cursor_lt hI.iinv k; omega)
+
+/-- `iter_safe_under_removal`: in every reachable state, removals allowed:
+    (1) whatever a `next k` call returns is "eof", "ctx", or the item of an entry that exists in `vals` and was
+        added by a successful add (never a made-up value), and the cursor then points at that entry;
+    (2) every cursor points at the sentinel or at an entry that was created (it is never dangling);
+    (3) the entries one iterator yields have strictly increasing identities — so no entry is yielded twice and
+        the order of adds is kept — and the strings returned are exactly the items of those entries;
+    (4) `vals` is exactly the record of the successful adds. -/
+theorem iter_safe_under_removal {q0 : St} (h0 : InitQ q0) (programs : List (List Op)) {log : List (Ev St Op)}
+    {s : Sys St Op} (hr : Reach' subject (initSys q0 programs) log s) :
+    (∀ t pc k first c pre out r, Ev.seg t pc (.next k) first c pre out ∈ log → out.fin = .ret r →
+        r = "eof" ∨ r = "ctx" ∨
+        ∃ n v, pre.nextEntry k = some n ∧ 1 ≤ n ∧ (n, v) ∈ s.subj.vals ∧ v ∈ added log ∧ r = toString v ∧
+          out.st.cursor k = n) ∧
+    (∀ k, s.subj.cursor k = 0 ∨ ∃ v, (s.subj.cursor k, v) ∈ s.subj.vals) ∧
+    (∀ k, ((yields k log).map (·.1)).Pairwise (· < ·) ∧ ((yields k log).map (·.1)).Nodup ∧
+        nextVals k log = (yields k log).map (fun p => toString p.2)) ∧
+    added log = s.subj.vals.reverse.map (·.2) := by
+  have hI := IterInv.run h0 hr
+  refine ⟨?_, fun k => hI.iinv.cursor_exists k, ?_, hI.addedEq⟩
+  · intro t pc k first c pre out r hmem hfin
+    obtain ⟨_, hIp, hs⟩ := hI.evs _ hmem
+    obtain ⟨r1, r2⟩ := next_result hIp hs
+    cases hne : pre.nextEntry k with
+    | some n =>
+      obtain ⟨e1, e2, e3, e4⟩ := r1 n hne
+      have hin := hI.valsMono _ _ _ _ _ _ _ hmem _ e4
+      refine Or.inr (Or.inr ⟨n, pre.valOf n, rfl, e3, hin, ?_, ?_, e2⟩)
+      · rw [hI.addedEq]
+        exact List.mem_map.2 ⟨_, List.mem_reverse.2 hin, rfl⟩
+      · rw [hfin] at e1; simpa using e1
+    | none =>
+      rcases (r2 hne).2 with ⟨e, _⟩ | ⟨e, _⟩ | ⟨e, _⟩
+      · rw [hfin] at e; left; simpa using e
+      · rw [hfin] at e; right; left; simpa using e
+      · rw [hfin] at e; cases e
+  · intro k
+    obtain ⟨y, hy⟩ := hI.yinv k
+    exact ⟨hy.incr, (hy.incr.imp (fun h => Nat.ne_of_lt h)), nextVals_eq k hI.evs⟩
+
+/-- `iter_eof_only_when_closed_or_ctx` (per call): a `next k` segment returns "eof" only on a closed
+    queue, and "ctx" only when it is a re-check that saw its context cancelled; in both cases there was no
+    unseen linked entry after the cursor, and the queue (items, closed flag, tracker) is untouched -/
+theorem iter_eof_only_when_closed_or_ctx (s : St) (hI : IInv s) {t k : Nat} {first c : Bool} {o : SegOut St}
+    (hs : IsSeg s t (.next k) first c o) :
+    (o.fin = .ret "eof" → s.closed = true ∧ s.nextEntry k = none) ∧
+    (o.fin = .ret "ctx" → c = true ∧ first = false ∧ s.closed = false ∧ s.nextEntry k = none) ∧
+    specOf o.st = specOf s := by
+  obtain ⟨r1, r2⟩ := next_result hI hs
+  refine ⟨?_, ?_, next_specOf s t k c o hs.next_cases⟩
+  · intro hf
+    cases hne : s.nextEntry k with
+    | some n =>
+      have := (r1 n hne).1
+      rw [hf] at this
+      exact absurd (by simpa using this.symm) (int_ne_eof (s.valOf n))
+    | none =>
+      rcases (r2 hne).2 with ⟨_, e⟩ | ⟨e, _⟩ | ⟨e, _⟩
+      · exact ⟨e, rfl⟩
+      · rw [hf] at e; simp at e
+      · rw [hf] at e; cases e
+  · intro hf
+    cases hne : s.nextEntry k with
+    | some n =>
+      have := (r1 n hne).1
+      rw [hf] at this
+      exact absurd (by simpa using this.symm) (int_ne_ctx (s.valOf n))
+    | none =>
+      rcases (r2 hne).2 with ⟨e, _⟩ | ⟨_, e1, e2, e3⟩ | ⟨e, _⟩
+      · rw [hf] at e; simp at e
+      · exact ⟨e2, e3, e1, rfl⟩
+      · rw [hf] at e; cases e
+
+/-- the same along runs: every "eof" in the log was returned on a closed queue; every "ctx" was returned by a
+    re-check segment, and a `cancel` action for that thread lies in the log between the invocation of that
+    very call and the segment that returned "ctx" (no later invocation of the thread in between) -/
+theorem iter_eof_ctx_in_runs {q0 : St} (h0 : InitQ q0) (programs : List (List Op)) {s : Sys St Op}
+    {l1 l2 : List (Ev St Op)} {t pc k : Nat} {first c : Bool} {pre : St} {out : SegOut St}
+    (hr : Reach' subject (initSys q0 programs) (l1 ++ Ev.seg t pc (.next k) first c pre out :: l2) s) :
+    (out.fin = .ret "eof" → pre.closed = true) ∧
+    (out.fin = .ret "ctx" → first = false ∧
+      ∃ l1a l1b, l1 = l1a ++ [Ev.env (.cancel t)] ++ l1b ∧ ∀ ev ∈ l1b, ¬ ev.isStartOf t) := by
+  have hI := IterInv.run h0 hr
+  obtain ⟨_, hIp, hs⟩ := hI.evs (Ev.seg t pc (.next k) first c pre out) (by simp)
+  obtain ⟨h1, h2, _⟩ := iter_eof_only_when_closed_or_ctx pre hIp hs
+  refine ⟨fun hf => (h1 hf).1, fun hf => ?_⟩
+  obtain ⟨hc, _, _, _⟩ := h2 hf
+  subst hc
+  exact hr.cancel_before
+
+/-! ## non-vacuity -/
+
+/-- a run without removals: two adds, the iterator (thread 1) reads 5, parks, is woken by the second add
+    and reads 6, parks again; close wakes it and it returns "eof" -/
+example : ∃ log s, Reach' subject (initSys mkUnlimited [[.add 5, .add 6, .close], [.next 0, .next 0, .next 0]]) log s ∧
+    (∀ ev ∈ log, ¬ returnsItem ev) ∧ added log = [5, 6] ∧ nextVals 0 log = ["5", "6"] ∧
+    results log = ["ok", "ok", "ok"] ∧ s.subj.cursor 0 = 2 := by
+  obtain ⟨log, s, hr, hc⟩ := runActs_witness (sub := subject)
+    (s := initSys mkUnlimited [[.add 5, .add 6, .close], [.next 0, .next 0, .next 0]])
+    (acts := [.start 0, .start 1, .start 1, .start 0, .resume 1, .start 1, .start 0, .resume 1])
+    (fun s log => decide (added log = [5, 6] ∧ nextVals 0 log = ["5", "6"] ∧ results log = ["ok", "ok", "ok"] ∧
+      s.subj.cursor 0 = 2 ∧ log.length = 8 ∧ log.all (fun ev => match ev with
+        | .seg _ _ op _ _ _ _ => op != .remove && op != .wait && op != .recv
+        | .env _ => true))) (by decide)
+  obtain ⟨h1, h2, h3, h4, _, h6⟩ := of_decide_eq_true hc
+  refine ⟨log, s, hr, ?_, h1, h2, h3, h4⟩
+  intro ev hev hri
+  have := List.all_eq_true.1 h6 ev hev
+  cases ev with
+  | env a => exact hri
+  | seg t pc op first c pre out =>
+    obtain ⟨hop, _⟩ := hri
+    rcases hop with rfl | rfl | rfl <;> simp at this
+
+/-- a run with removals: the only entry is removed while the iterator (which has yielded it) is parked;
+    the next add is seen after the restart from the sentinel; identities yielded: 1 then 2 -/
+example : ∃ log s, Reach' subject (initSys mkUnlimited [[.add 5, .remove, .add 6], [.next 0, .next 0]]) log s ∧
+    nextVals 0 log = ["5", "6"] ∧ (yields 0 log).map (·.1) = [1, 2] ∧ abs s.subj = [6] := by
+  obtain ⟨log, s, hr, hc⟩ := runActs_witness (sub := subject)
+    (s := initSys mkUnlimited [[.add 5, .remove, .add 6], [.next 0, .next 0]])
+    (acts := [.start 0, .start 1, .start 1, .start 0, .resume 1, .start 0, .resume 1])
+    (fun s log => decide (nextVals 0 log = ["5", "6"] ∧ (yields 0 log).map (·.1) = [1, 2] ∧ abs s.subj = [6])) (by decide)
+  exact ⟨log, s, hr, of_decide_eq_true hc⟩
+
+/-- `iter_eof_only_when_closed_or_ctx` has instances of both kinds -/
+example : ∃ (s : St) (o : SegOut St), IInv s ∧ IsSeg s 0 (.next 0) true false o ∧ o.fin = .ret "eof" :=
+  ⟨{ tracker := .noLimit 0, closed := true }, _, IInv.init (Or.inl rfl) |>.same rfl rfl rfl rfl rfl,
+   ⟨rfl, fun _ => rfl, fun h => (by cases h)⟩, by decide⟩
+
+example : ∃ (s : St) (o : SegOut St), IInv s ∧ IsSeg s 0 (.next 0) false true o ∧ o.fin = .ret "ctx" :=
+  ⟨mkUnlimited, _, IInv.init (Or.inl rfl), ⟨rfl, fun h => (by cases h), fun _ => rfl⟩, by decide⟩
 
 end FunModel.C20
